@@ -272,6 +272,22 @@ class HighOrderMutator(FirstOrderMutator):
             yield applied_mutations, mutant
             self._finish_generators(generators)
 
+    def mutation_count(  # noqa: D102
+        self,
+        target_ast: ast.AST,
+        module: types.ModuleType,
+    ) -> int:
+        # A higher-order mutant combines several first-order mutations, thus count the
+        # groups the strategy builds, not the first-order mutations. A strategy may draw
+        # random numbers: restore the state of the generator afterwards, such that the
+        # subsequent enumeration builds exactly the groups counted here.
+        state = randomness.RNG.getstate()
+        try:
+            mutations = self._generate_all_mutations(module, target_ast)
+            return sum(1 for _ in self.hom_strategy.generate(mutations))
+        finally:
+            randomness.RNG.setstate(state)
+
     def _generate_all_mutations(
         self,
         module: types.ModuleType,
